@@ -60,7 +60,7 @@ Example C11_ex_append5 :
 Proof. vm_compute. reflexivity. Qed.
 
 (* ==================== proofs, update, reload (second round) ==================== *)
-From LE Require Import RMT.Proof RMT.NodeProofs RMT.IndexProofs RMT.ProofSoundTop RMT.ProofCompleteTop RMT.Reload RMT.MultiLists RMT.MultiFinal.
+From LE Require Import RMT.Proof RMT.NodeProofs RMT.IndexProofs RMT.ProofSoundTop RMT.ProofCompleteTop RMT.Reload RMT.MultiLists RMT.MultiFinal RMT.WitnessTop.
 
 (* The (layer, index) addressing of the Go code: node (k, i) of l carries the LIP-0031 root of the slice
    l[i*2^k, (i+1)*2^k); a node whose right half is empty has the value of its left child, otherwise it is the branch
@@ -145,6 +145,25 @@ Theorem C11_update_gives_root_of_modified_list : forall (n : N), size_ok n ->
   update_root hbranch heqb (node_of hempty hleaf hbranch l) n (map (leaf_idx n) ps) (map (nval hempty hleaf hbranch lv 0) ps) =
   Ok (mroot hempty hleaf hbranch lv).
 Proof. exact @update_multi. Qed.
+
+(* RIGHT WITNESS, every position 0 <= idx <= n of every list (1 <= n <= 2^29), any hash: GenerateRightWitness(idx) on the
+   store view of l succeeds, and CalculateRootFromRightWitness applied to the append path of the first idx leaves and that
+   witness returns the LIP-0031 root of l.  (Both Go loops keep incrementalIdx = (ancestor index + 1) * 2^layer; the
+   witness is the list of existing right siblings of the left-child ancestors of leaf idx-1, the partial append path the
+   list of perfect blocks of the binary expansion of idx: RMT/Witness*.v.) *)
+Theorem C11_right_witness_reconstructs_root :
+  forall (D Hsh : Type) (hempty : Hsh) (hleaf : D -> Hsh) (hbranch : Hsh -> Hsh -> Hsh) (n : N), size_ok n ->
+  forall (l : list D), len l = n -> forall idx, idx <= n ->
+  exists w, gen_right_witness (node_of hempty hleaf hbranch l) (subtree_roots hempty hleaf hbranch l) n idx = Ok w /\
+            root_from_right_witness hempty hbranch idx (subtree_roots hempty hleaf hbranch (firstn (N.to_nat idx) l)) w =
+            Ok (mroot hempty hleaf hbranch l).
+Proof. exact @right_witness_reconstructs_root. Qed.
+
+(* the append path alone reconstructs the root (getRootFromPath) *)
+Theorem C11_append_path_reconstructs_root :
+  forall (D Hsh : Type) (hempty : Hsh) (hleaf : D -> Hsh) (hbranch : Hsh -> Hsh -> Hsh) (l : list D), l <> [] ->
+  root_from_path hempty hbranch (subtree_roots hempty hleaf hbranch l) = mroot hempty hleaf hbranch l.
+Proof. exact @path_root. Qed.
 
 (* Reload: after appending any non-empty list to a new tree, decoding the stored info record gives back the current
    state, which is (batch root, append path, size) of the list.  The codec round trip of the info record (C08) is the
